@@ -218,4 +218,28 @@ theorem readTlvs_step (r : Reader) (hb : ∀ x ∈ r.rest, x < 256) : RdStep r (
     · rename_i h
       exact readTlvLoop_step _ r [] (by simpa using h) hb
 
+theorem readNum_lt (r : Reader) (k : Nat) (hb : ∀ x ∈ r.rest, x < 256) : (r.readNum k).1 < 256 ^ k := by
+  have hp : 0 < 256 ^ k := Nat.pow_pos (by omega)
+  unfold Reader.readNum
+  split
+  · exact hp
+  · split
+    · rename_i hk
+      have := fromBe_lt (r.rest.take k) (fun x hx => hb x ((List.take_sublist _ _).subset hx))
+      rw [List.length_take, Nat.min_eq_left hk] at this
+      exact this
+    · split <;> exact hp
+
+theorem readCStringNRaw_val (r : Reader) (n : Nat) : ∀ x ∈ (r.readCStringNRaw n).1, x ∈ r.rest := by
+  unfold Reader.readCStringNRaw
+  split
+  · simp
+  · split
+    · simp
+    · rcases readExact_spec r n with ⟨t, hx, ht, hn⟩ | ⟨e, hx, _⟩ | ⟨e, hx, _⟩ <;> rw [hx]
+      · simp only [Option.getD_some]
+        intro x hx'; rw [ht] at hx'; exact (List.take_sublist _ _).subset hx'
+      · simp
+      · simp
+
 end SmsVerif
